@@ -175,6 +175,10 @@ func vpAssert(e *Engine, st *State, fn *ssa.Function, a []Value, s ssa.Instructi
 	id := constStrArg(a[1])
 	e.rep.AssertIDs[id]++
 	st.obs = st.obs.push(ObsEntry{Tag: "assert:" + id, Kind: "assert", Term: c})
+	if o := idOwner(id); e.cfg.Owner != "" && o != "" && o != e.cfg.Owner {
+		// stated by another property (shared harness): observed, neither checked nor assumed
+		return one(st, nil)
+	}
 	if !e.obligation(st, c, "assert", id, s) {
 		return nil
 	}
